@@ -2,6 +2,9 @@
 import json, os, time
 
 VERIF = os.path.dirname(os.path.dirname(os.path.abspath(__file__)))
+# evidence goes to /verif/evidence; runs against scratch trees (seed / refactor evaluation) redirect it so that the committed evidence
+# always describes /repo itself
+EVID = os.environ.get('BP_EVIDENCE_DIR') or os.path.join(VERIF, 'evidence')
 
 
 def load_known():
@@ -80,16 +83,16 @@ class Report:
         lines = []
         for v in kn:
             lines.append('KNOWN-FINDING: property=%s %s [%s]' % (self.pid, known_keys[v['key']].get('what', v['detail']), v['key']))
-        os.makedirs(os.path.join(VERIF, 'evidence', 'replay'), exist_ok=True)
+        os.makedirs(os.path.join(EVID, 'replay'), exist_ok=True)
         import glob
-        for old in glob.glob(os.path.join(VERIF, 'evidence', 'replay', '%s-*.json' % self.pid)):
+        for old in glob.glob(os.path.join(EVID, 'replay', '%s-*.json' % self.pid)):
             os.remove(old)
         # unique new violations by key (the same key may fire under several cfg sets)
         uniq = {}
         for v in new:
             uniq.setdefault(v['key'], v)
         for n, (k, v) in enumerate(sorted(uniq.items())):
-            rp = os.path.join(VERIF, 'evidence', 'replay', '%s-%d.json' % (self.pid, n))
+            rp = os.path.join(EVID, 'replay', '%s-%d.json' % (self.pid, n))
             with open(rp, 'w') as fh:
                 json.dump({'property': self.pid, 'rule': v['rule'], 'key': v['key'], 'detail': v['detail'], 'where': v['where'],
                            'cfg': v['cfg'], 'tier': self.tier}, fh, indent=1)
@@ -139,7 +142,7 @@ class Report:
             'violations': len(uniq),
         }
         ev['coverage'].update(self.extra)
-        with open(os.path.join(VERIF, 'evidence', '%s.json' % self.pid), 'w') as fh:
+        with open(os.path.join(EVID, '%s.json' % self.pid), 'w') as fh:
             json.dump(ev, fh, indent=1, default=str)
         for l in lines:
             print(l)
